@@ -153,7 +153,7 @@ class DataAppend:
         h = run.R(m, o.get("via", 0))
         r = run.call(lambda: h.append(v, axis=ax))
         run.expect_ok(r, "data_append")
-        if run.extra.get("resized:%d" % id(m)):
+        if run.extra.get("resized:%d" % m.uid):
             run.stats["append_after_resize"] += 1
         m.data = np.concatenate([m.data, v], axis=ax)
         run.stats["data_appends_axis%d" % min(ax, 3)] += 1
@@ -246,7 +246,7 @@ class DataResize:
         common = tuple(slice(0, min(a, b)) for a, b in zip(new, m.data.shape))
         d[common] = m.data[common]
         m.data = d
-        run.extra["resized:%d" % id(m)] = True
+        run.extra["resized:%d" % m.uid] = True
         run.stats["data_resizes"] += 1
         return res(OK, touch={m.id: "may"}, target=m)
 
